@@ -18,6 +18,9 @@ var c03PortShapes = [][]*scan.PortRange{
 	{{StartPort: 0, EndPort: 0}, {StartPort: 65535, EndPort: 65535}},
 	{{StartPort: 1, EndPort: 1024}, {StartPort: 32768, EndPort: 65534}},
 	{{StartPort: 443, EndPort: 443}},
+	{{StartPort: 1, EndPort: 10000}, {StartPort: 443, EndPort: 443}},                                  // 6: a range nested in an earlier, wider one
+	{{StartPort: 100, EndPort: 200}, {StartPort: 150, EndPort: 160}, {StartPort: 201, EndPort: 300}},  // 7: nested and adjacent
+	{{StartPort: 500, EndPort: 600}, {StartPort: 1, EndPort: 1000}, {StartPort: 1000, EndPort: 1001}}, // 8: unsorted, wider after narrower, touching
 }
 
 func c03InPorts(p uint16, rs []*scan.PortRange) bool {
